@@ -1895,6 +1895,9 @@ def bytes_method(I, recv, name, args, kwargs):
         return VBool(z3.Or([z3.PrefixOf(p, s) for p in ps]))
     if name == 'decode':
         return I.vc.decode_model(I, recv, args, kwargs)
+    if name in ('find', 'rfind', 'endswith', 'index'):
+        # bytes are strings of code points 0..255: searching is the string operation
+        return str_method(I, s, name, [VStr(a.t) if isinstance(a, VBytes) else a for a in args], kwargs)
     raise Unsupported('bytes.%s' % name)
 
 
@@ -2049,17 +2052,122 @@ def new_match(I, string, pattern, tag):
     isn = lambda g: fnone(string, g if not isinstance(g, int) else z3.IntVal(g))  # noqa: E731
     m = VMatch(string, ng, st, en, isn, dict(pattern.groupindex), tag)
     m.nomatch = nomatch(string)
+    m.is_bytes = isinstance(pattern.pattern, bytes)
     n = z3.Length(string)
     done = I.ghost.setdefault('match_axioms', set())
     ck = (tag, pattern_key(pattern), string.get_id())
     if ck not in done:
         done.add(ck)
         I.assume(z3.Not(isn(0)))
+        for k in mandatory_groups(pattern):
+            # a group on the spine of the pattern takes part in every match (REGEX-STRUCT fact)
+            I.assume(z3.Not(isn(k)))
+        for k in ascii_groups(pattern):
+            # every character the group can consume is ASCII (REGEX-STRUCT fact)
+            I.assume(z3.Or(isn(k), z3.InRe(z3.SubString(string, st(k), en(k) - st(k)), ASCII_STAR)))
         for k in range(ng + 1):
             I.assume(z3.If(isn(k), z3.And(st(k) == -1, en(k) == -1),
                            z3.And(0 <= st(k), st(k) <= en(k), en(k) <= n,
                                   st(0) <= st(k), en(k) <= en(0))))
     return m
+
+
+_mandatory = {}
+_asciig = {}
+ASCII_STAR = z3.Star(z3.Range(z3.StringVal('\x00'), z3.StringVal('\x7f')))
+
+
+def ascii_groups(pattern):
+    """capturing groups that can only consume ASCII characters: literals / classes below 128, and
+    \\w \\d \\s classes when the pattern is a bytes pattern or compiled with re.ASCII"""
+    key = (pattern.pattern, pattern.flags)
+    if key in _asciig:
+        return _asciig[key]
+    import re._constants as C
+    import re._parser as P
+    ascii_cat = isinstance(pattern.pattern, bytes) or bool(pattern.flags & _re.ASCII)
+    POS_CATS = (C.CATEGORY_DIGIT, C.CATEGORY_WORD, C.CATEGORY_SPACE)
+
+    def only_ascii(sp):
+        for op, av in sp.data if hasattr(sp, 'data') else sp:
+            if op is C.LITERAL:
+                if av >= 128:
+                    return False
+            elif op is C.IN:
+                for o, a in av:
+                    if o is C.NEGATE:
+                        return False
+                    if o is C.LITERAL and a >= 128:
+                        return False
+                    if o is C.RANGE and a[1] >= 128:
+                        return False
+                    if o is C.CATEGORY and not (ascii_cat and a in POS_CATS):
+                        return False
+            elif op in (C.MAX_REPEAT, C.MIN_REPEAT, C.POSSESSIVE_REPEAT):
+                if not only_ascii(av[2]):
+                    return False
+            elif op is C.SUBPATTERN:
+                if not only_ascii(av[3]):
+                    return False
+            elif op is C.BRANCH:
+                if not all(only_ascii(x) for x in av[1]):
+                    return False
+            elif op in (C.AT, C.ASSERT, C.ASSERT_NOT):
+                continue
+            else:
+                return False
+        return True
+    out = []
+
+    def walk(sp):
+        for op, av in sp.data if hasattr(sp, 'data') else sp:
+            if op is C.SUBPATTERN:
+                if av[0] is not None and only_ascii(av[3]):
+                    out.append(av[0])
+                walk(av[3])
+            elif op in (C.MAX_REPEAT, C.MIN_REPEAT, C.POSSESSIVE_REPEAT):
+                walk(av[2])
+            elif op is C.BRANCH:
+                for x in av[1]:
+                    walk(x)
+    try:
+        walk(P.parse(pattern.pattern, pattern.flags))
+    except Exception:
+        out = []
+    _asciig[key] = sorted(set(out))
+    return _asciig[key]
+
+
+def mandatory_groups(pattern):
+    """capturing groups that take part in EVERY match: reached from the top of the parse tree
+    only through sequences, capturing/non-capturing groups and repeats with a minimum >= 1"""
+    key = (pattern.pattern, pattern.flags)
+    if key in _mandatory:
+        return _mandatory[key]
+    import re._constants as C
+    import re._parser as P
+    out = set()
+
+    def walk(sp):
+        for op, av in sp.data:
+            if op is C.SUBPATTERN:
+                if av[0] is not None:
+                    out.add(av[0])
+                walk(av[3])
+            elif op in (C.MAX_REPEAT, C.MIN_REPEAT, C.POSSESSIVE_REPEAT) and av[0] >= 1:
+                walk(av[2])
+            elif op is C.ATOMIC_GROUP:
+                walk(av)
+    try:
+        walk(P.parse(pattern.pattern, pattern.flags))
+    except Exception:
+        out = set()
+    _mandatory[key] = sorted(out)
+    return _mandatory[key]
+
+
+def _match_text(m, t):
+    return VBytes(t) if getattr(m, 'is_bytes', False) else VStr(t)
 
 
 def match_group_index(m, a):
@@ -2070,17 +2178,17 @@ def match_group_index(m, a):
 
 
 def match_group_value(m, g):
-    return VOpt(m.isnone(g), VStr(z3.SubString(m.string, m.start(g), m.end(g) - m.start(g))))
+    return VOpt(m.isnone(g), _match_text(m, z3.SubString(m.string, m.start(g), m.end(g) - m.start(g))))
 
 
 def match_method(I, m, name, args, kwargs):
     used('re.Match.' + name)
     if name == 'group':
         if not args:
-            return VStr(z3.SubString(m.string, m.start(0), m.end(0) - m.start(0)))
+            return _match_text(m, z3.SubString(m.string, m.start(0), m.end(0) - m.start(0)))
         g = match_group_index(m, args[0])
         if z3.is_int_value(z3.simplify(g)) and z3.simplify(g).as_long() == 0:
-            return VStr(z3.SubString(m.string, m.start(0), m.end(0) - m.start(0)))
+            return _match_text(m, z3.SubString(m.string, m.start(0), m.end(0) - m.start(0)))
         return match_group_value(m, g)
     if name in ('start', 'end'):
         g = match_group_index(m, args[0]) if args else z3.IntVal(0)
@@ -2110,6 +2218,13 @@ def pattern_method(I, pat, name, args, kwargs):
     used('re.Pattern.%s (abstract: result spans within the string; regex language trusted)' % name)
     if name in ('match', 'search', 'fullmatch'):
         s = strterm(args[0])
+        if len(args) > 1:
+            # pattern.search(s, 0, endpos): "as if the string is endpos characters long"
+            pos = z3.simplify(as_int(args[1]))
+            if not (z3.is_int_value(pos) and pos.as_long() == 0):
+                raise Unsupported('Pattern.%s with a start position' % name)
+            if len(args) > 2:
+                s = str_slice(s, VSlice(NONE, args[2], NONE))
         m = new_match(I, s, pat, name)
         if name == 'match':
             I.assume(m.start(0) == 0)
@@ -2185,10 +2300,16 @@ def decode_model(I, recv, args, kwargs):
     enc = args[0] if args else kwargs.get('encoding', VStr('utf-8'))
     errors = concretise(args[1]) if len(args) > 1 else 'strict'
     et = strterm(enc)
+    ascii_compatible = is_concrete(enc) and str(concretise(enc)).lower().replace('_', '-') in (
+        'ascii', 'us-ascii', 'utf-8', 'utf8', 'latin-1', 'latin1', 'iso-8859-1')
     if errors == 'strict' and I.spec_mode == 0:
         which = I.path.choose(2, 'decode')
         if which == 1:
+            if ascii_compatible:
+                I.assume(z3.Not(z3.InRe(b, ASCII_STAR)))
             raise Raised(VExc(UnicodeDecodeError, []))
+    if ascii_compatible and errors == 'strict':
+        I.assume(z3.Implies(z3.InRe(b, ASCII_STAR), f_decode(et, b) == b))
     if is_concrete(enc):
         decode_axioms(I, concretise(enc), b)
     else:
